@@ -368,6 +368,35 @@ def _must_be_fresh(sim, op):
     return M.current_spelling(unit) != own
 
 
+class ValidityWatch(Monitor):
+    """C13: validation does not change its operand - in particular not the verdict the operand
+    gives about itself.  The same validity question asked of the same (unchanged) pool member
+    answers the same every time, unless the call was cut short or met a transient peer fault."""
+
+    def __init__(self, prop="C13"):
+        self.prop = prop
+        self.seen = {}
+
+    def after(self, sim, op, out):
+        if op["k"] not in ("val.IsValid", "val.CheckValidity") or out[0] not in ("ok", "exc"):
+            return
+        t = op.get("t")
+        if not (isinstance(t, dict) and "ref" in t) or sim.peer_fired or t["ref"] in sim.tainted or op.get("peer"):
+            return
+        key = (t["ref"], op["k"], sim.epoch)
+        now = sim.log[-1][3:5]
+        was = self.seen.get(key)
+        sim.oracle_checks += 1
+        if was is not None and was != now:
+            sim.violation(
+                self.prop + ".unchanged",
+                {"class": type(sim.last_target).__name__, "field": "validity_verdict", "role": "operand", "op": op["k"], "status": out[0]},
+                op["i"],
+                "%s of the pool member of step %s answered %r before and %r now" % (op["k"], t["ref"], was, now),
+            )
+        self.seen[key] = now
+
+
 def _refers(op, i):
     for a in list(op.get("a", [])) + list(op.get("kw", {}).values()) + [op["t"]]:
         if isinstance(a, dict):
